@@ -312,6 +312,13 @@ func runC08(c *mon.Ctx) {
 			try(fmt.Sprintf("bufio=%d", bs), s.Bytes, DemuxCfg{PacketSize: 188, Reader: "bufio", BufioSize: bs, API: api}, false, "full+small-bufio")
 			c.Count("small_bufio_runs")
 		}
+		// ... and with the size detected: a bufio.Reader is a bufio.Reader whatever its buffer holds (one packet is a natural choice),
+		// detection must not lose or alter a packet
+		for _, bs := range []int{16, 64, 188, 192} {
+			api := []string{"data", "packet"}[r.IntN(2)]
+			try(fmt.Sprintf("bufio=%d/auto", bs), s.Bytes, DemuxCfg{Reader: "bufio", BufioSize: bs, API: api}, false, "full+small-bufio+auto")
+			c.Count("small_bufio_auto_runs")
+		}
 		for _, k := range []int{4096 - 188, 4097 - 188, 5000 - 188} {
 			ex := gen.Bytes(r, k)
 			huge := refts.Reframe(s.Bytes, k, func(p, j int) byte { return ex[j] ^ byte(p) })
